@@ -165,6 +165,14 @@ func New(tape *Tape, cfg Config) *Runtime {
 	return r
 }
 
+// ActiveTape returns the tape of the run in progress, or nil.
+func ActiveTape() *Tape {
+	if r := active.Load(); r != nil {
+		return r.tape
+	}
+	return nil
+}
+
 // Tape returns the run's choice tape (for pacing / permutation decisions taken
 // by simulated components while they hold the baton).
 func (r *Runtime) Tape() *Tape { return r.tape }
